@@ -354,7 +354,9 @@ Inductive gop :=
 | GBlkReadonly | GBlkFlush | GConsoleSize | GConsoleEmergWrite | GGpuGetEdid
 | GNetHeader | GNetSend (len : N) | GRngRequest (len : N)
 | GGpuEdidVia (entry : N)          (* 9: edid_preferred_resolution, 10: edid_supported_resolutions: both go through get_edid *)
-| GNetRecvHdr.                      (* VirtIONet::receive: the offset of RxBuffer::packet() in the buffer = the header size in use *)
+| GNetRecvHdr                       (* VirtIONet::receive: the offset of RxBuffer::packet() in the buffer = the header size in use *)
+| GNetTxBegin (len : N)             (* VirtIONetRaw::transmit_begin with a buffer of `len` bytes: accepted iff it can hold the header *)
+| GBlkFill.                         (* six non-blocking reads on the 16-entry queue, nothing completed: the verdict of the sixth *)
 
 (* result, events, used_event of the queue used. The device of the scenario completes a chain by
    zero-filling its writable part and reporting its total writable length. *)
@@ -386,6 +388,11 @@ Definition gop_run (f : N) (cfg : list N) (gen : N) (o : gop) : outcome N * list
       if bit f 1 then (Err EIoError, chain_ev f [4096] [4096] 0, used_event_after f)
       else (Err EUnsupported, [], 0)
   | GNetRecvHdr => (Ok (if bit f B_VERSION_1 then 12 else 10), [], 0)   (* the events of the receive path are C16's *)
+  | GNetTxBegin len =>
+      (if len <? (if bit f B_VERSION_1 then 12 else 10) then Err EInvalidParam else Ok 0, [], 0)   (* events: C16 *)
+  | GBlkFill =>
+      (* three descriptors per request without indirect descriptors: five fit into sixteen, the sixth is refused *)
+      (if bit f B_INDIRECT then Ok 0 else Err EQueueFull, [], 0)
   end.
 
 (* which driver an operation belongs to *)
@@ -393,6 +400,6 @@ Definition gop_driver_ok (d : driver) (o : gop) : bool :=
   match o, d with
   | GBlkReadonly, DBlk | GBlkFlush, DBlk | GConsoleSize, DConsole | GConsoleEmergWrite, DConsole
   | GGpuGetEdid, DGpu | GNetHeader, DNetRaw | GNetSend _, DNetRaw | GNetSend _, DNet
-  | GRngRequest _, DRng | GGpuEdidVia _, DGpu | GNetRecvHdr, DNet => true
+  | GRngRequest _, DRng | GGpuEdidVia _, DGpu | GNetRecvHdr, DNet | GNetTxBegin _, DNetRaw | GBlkFill, DBlk => true
   | _, _ => false
   end.
